@@ -57,6 +57,9 @@ CHECKS = {
  "C15": dict(cat="other", tech="compile-fail/SFINAE-free existence (wrapper must compile), closed-form comparison with lane division incl. UB obligations, bisimulation of broadcast-from-scalar vs broadcast vector",
    text="STRUCTURAL CLAIM. For every integer vector type x configuration: Denominator<V>(Denominator<scalar>(d)) must exist (a non-compiling wrapper is a violation), div by it is compared as a closed form with truncating division of every lane by d (witness-refutable: found 1/1 == 0 for the unsigned broadcast constructors) and its body with that of Denominator<V>(V{d}); value() must be public and return the divisors; / % /= %= bisimilar to div().quot/.rem. Per-lane exactness of the multiply-shift scheme itself is compared where interpreted and otherwise UNDECIDED (numeric core not decided).",
    note=TB + "; one known finding (Denominator<int32_t>(INT32_MIN))", ref="4/C15"),
+ "C18": dict(cat="other", tech="symbolic summary of allocate/deallocate from optimised IR per (T, A, build, n): primitive pairing, size sufficiency, low-bit alignment proof, bookkeeping store provenance and claimed-vs-provable alignment",
+   text="For T in {1,2,4,8,16,64-byte types} x A in {alignof(T)..4096} x builds {no macro C++11/14/17/20, SSE2 C++11/17} x n (incl. 0 and sizes not multiple of 8): allocate calls exactly one allocation primitive with a sufficient size (over-allocation: n*sizeof(T)+(A-1)+sizeof(size_t)), the returned pointer's low log2(A) bits are provably zero (or it is the primitive's pointer with a sufficient alignment argument), the offset word is written at aligned+n*sizeof(T) with value aligned-raw by an access that claims no more alignment than provable; deallocate frees exactly the pointer obtained (p, or p minus the word read byte-wise from the same place). The header must compile in every build. Any history reduces to independent pairs because the allocator is stateless (static_assert) and touches no global.",
+   note="C library allocation contracts; clang -O2 preserves UB-free meaning; histories are reduced to per-call rules by statelessness", ref="4/C18", engine="E3-lanewise"),
 }
 
 NA = {
